@@ -1,7 +1,12 @@
 /-
-C18 — property theorems (block download delivers every block once, in order, with a matching body).
+C18 — property theorems: block download delivers every block once, in order, with a matching body.
+
+All statements are about `run (init …) ops` for EVERY operation list `ops` that respects the call
+discipline of the downloader (`DisciplinedRun`: Schedule is called with `from` = offset + number of
+headers accepted so far; the window length passed to a reservation is at most the cache length).
+`batches` is the list of batches `Results` returned along the run.
 -/
-import YouVerif.C18.Model
+import YouVerif.C18.ProofsRun
 namespace YouVerif.C18
 
 /-- Results never hands out more than `maxResultsProcess` items. -/
@@ -17,5 +22,82 @@ theorem results_batch_bounded (s : State) : (results s).2.length ≤ s.cfg.maxPr
       · simp only [List.length_cons]; have := ih (o + 1); omega
   simp only [results]
   exact Nat.le_trans (h _ _ _) (Nat.min_le_right _ _)
+
+/-- **In order, once, gap-free, from the origin.**  The concatenation of all batches ever returned is a prefix
+of the scheduled header chain, and the i-th scheduled header has number `offset + i`: so block numbers handed
+to the importer are `offset, offset+1, …` without gap or repetition. -/
+theorem results_in_order_once (cacheLen maxProc : Nat) (fast : Bool) (offset : Nat) (ops : List Op)
+    (hd : DisciplinedRun (init cacheLen maxProc fast offset) ops) :
+    let s := run (init cacheLen maxProc fast offset) ops
+    let out := (batches (init cacheLen maxProc fast offset) ops).flatten
+    out.map (·.header) = s.sched.take out.length ∧
+    (∀ i h, s.sched[i]? = some h → h.num = offset + i) ∧
+    (∀ i r, out[i]? = some r → r.header.num = offset + i) := by
+  intro s out
+  have hi : Inv s := inv_run (inv_init _ _ _ _) ops hd
+  have hret : s.ret = out := by
+    have := ret_run (init cacheLen maxProc fast offset) ops
+    rw [show (init cacheLen maxProc fast offset).ret = [] from rfl, List.nil_append] at this
+    exact this
+  have horg : s.origin = offset := by
+    have : ∀ (t : State) (l : List Op), (run t l).origin = t.origin := by
+      intro t l
+      induction l generalizing t with
+      | nil => rfl
+      | cons op l ih =>
+        show (run (step t op) l).origin = t.origin
+        rw [ih]
+        cases op with
+        | schedule hs f => exact (scheduleLoop_frame hs f t).2.1
+        | reserve k l p c => exact (reserve_frame t k l p c).origin
+        | deliver k p bs => exact (deliver_frame t k p bs).origin
+        | cancel k p => rfl
+        | expire k ps => rfl
+        | revoke p => rfl
+        | results => rfl
+    exact this _ _
+  have h1 : out.map (·.header) = s.sched.take out.length := by rw [← hret]; exact hi.retEq
+  have h2 : ∀ i h, s.sched[i]? = some h → h.num = offset + i := by
+    intro i h hh; rw [← horg]; exact hi.schedNum i h hh
+  refine ⟨h1, h2, ?_⟩
+  intro i r hr
+  have : (out.map (·.header))[i]? = some r.header := by simp [hr]
+  rw [h1, List.getElem?_take] at this
+  split at this
+  · exact h2 i _ this
+  · cases this
+
+/-- **Matching body.**  Every result ever returned carries a transaction list whose `DeriveSha` digest is the
+header's transaction root (no list ⇔ empty root), and in fast/light mode a receipt list matching the receipt root. -/
+theorem body_matches (cacheLen maxProc : Nat) (fast : Bool) (offset : Nat) (ops : List Op)
+    (hd : DisciplinedRun (init cacheLen maxProc fast offset) ops) :
+    ∀ r ∈ (batches (init cacheLen maxProc fast offset) ops).flatten,
+      optRoot r.txs = r.header.txRoot ∧ (fast = true → optRoot r.rcs = r.header.rcRoot) := by
+  intro r hr
+  have hi : Inv (run (init cacheLen maxProc fast offset) ops) := inv_run (inv_init _ _ _ _) ops hd
+  have hret : (run (init cacheLen maxProc fast offset) ops).ret = (batches (init cacheLen maxProc fast offset) ops).flatten := by
+    have := ret_run (init cacheLen maxProc fast offset) ops
+    rw [show (init cacheLen maxProc fast offset).ret = [] from rfl, List.nil_append] at this
+    exact this
+  have hcfg : (run (init cacheLen maxProc fast offset) ops).cfg.fast = fast := by
+    have : ∀ (t : State) (l : List Op), (run t l).cfg = t.cfg := by
+      intro t l
+      induction l generalizing t with
+      | nil => rfl
+      | cons op l ih =>
+        show (run (step t op) l).cfg = t.cfg
+        rw [ih]
+        cases op with
+        | schedule hs f => exact (scheduleLoop_frame hs f t).1
+        | reserve k l p c => exact (reserve_frame t k l p c).cfg
+        | deliver k p bs => exact (deliver_frame t k p bs).cfg
+        | cancel k p => rfl
+        | expire k ps => rfl
+        | revoke p => rfl
+        | results => rfl
+    rw [this]; rfl
+  have := hi.retOK r (by rw [hret]; exact hr)
+  rw [hcfg] at this
+  exact this
 
 end YouVerif.C18
